@@ -16,6 +16,8 @@ import (
 	"sort"
 	"strconv"
 	"strings"
+	"sync"
+	"sync/atomic"
 	"time"
 	"unsafe"
 
@@ -81,6 +83,7 @@ type Event struct {
 	Panic string      `json:"panic"`
 	Skip  bool        `json:"skip,omitempty"`
 	Bufch []int       `json:"bufch"` // registered caller buffers whose bytes changed during this call
+	Bufrz bool        `json:"bufrz"` // ... one of them holds a frozen-format image (C13: writes on a frozen view copy)
 	Aux   bool        `json:"aux"`   // auxiliary Go-side arithmetic checks of this call passed (true when none)
 	Argok bool        `json:"argok"` // caller's argument slice unchanged
 	Gor   int         `json:"gor"`   // goroutines left behind by a Par* call
@@ -94,6 +97,7 @@ type ProbeRec struct {
 	A int  `json:"a"`
 	B int  `json:"b"` // 0: caller buffer
 	W bool `json:"w"`
+	F bool `json:"f"` // b == 0: a changed buffer holds a frozen-format image
 }
 
 type callerBuf struct {
@@ -102,6 +106,7 @@ type callerBuf struct {
 	hash  uint64
 	dead  bool // scribbled/discarded: no longer monitored
 	orig  []byte
+	frz   bool // holds a frozen-format image
 }
 
 type Exec struct {
@@ -173,6 +178,12 @@ func (e *Exec) registerBuf(b []byte) *callerBuf {
 	cb := &callerBuf{bytes: b, hash: hashBytes(b), orig: append([]byte(nil), b...)}
 	cb.id = e.ot.registerBuf(b)
 	e.bufs = append(e.bufs, cb)
+	return cb
+}
+
+func (e *Exec) registerFrozen(b []byte) *callerBuf {
+	cb := e.registerBuf(b)
+	cb.frz = true
 	return cb
 }
 
@@ -300,7 +311,7 @@ func (e *Exec) build(s iset, rcp string) (*roaring.Bitmap, bool) {
 			case 'r':
 				_, err = nb.ReadFrom(bytes.NewReader(data))
 			case 'f':
-				cb := e.registerBuf(data)
+				cb := e.registerFrozen(data)
 				err = nb.FrozenView(cb.bytes)
 				tainted = true
 			}
@@ -351,6 +362,37 @@ func sameInts(a, b []int) bool {
 	return true
 }
 
+// A library call that never returns (an endless loop inside the library) is reported as a hang of that call instead of
+// stalling the producer: one monitor goroutine per process looks at the call in flight.
+type flight struct {
+	e     *Exec
+	call  Call
+	idx   int
+	start time.Time
+}
+
+var (
+	inFlight   atomic.Pointer[flight]
+	flightOnce sync.Once
+)
+
+const callTimeout = 300 * time.Second
+
+func flightMonitor() {
+	for {
+		time.Sleep(2 * time.Second)
+		f := inFlight.Load()
+		if f == nil || time.Since(f.start) < callTimeout {
+			continue
+		}
+		ev := &Event{Call: f.call, Tr: f.e.tr, I: f.idx, Post: []SlotAtoms{}, Bad: []SlotMsg{}, Rep: []SlotRep{}, Bufch: []int{}, Aux: true, Argok: true,
+			Alias: [][2]int{}, Probe: []ProbeRec{}, Panic: "hang: no return within 300s"}
+		f.e.emit(ev) // the producer's own goroutine is stuck inside the library: nobody else writes
+		f.e.w.Flush()
+		os.Exit(0)
+	}
+}
+
 // run executes one call and logs its event.
 func (e *Exec) run(c Call) *Event {
 	e.idx++
@@ -388,6 +430,11 @@ func (e *Exec) run(c Call) *Event {
 				ev.Ret = nil
 			}
 		}()
+		if !isPar {
+			flightOnce.Do(func() { go flightMonitor() })
+			inFlight.Store(&flight{e: e, call: c, idx: e.idx, start: time.Now()})
+			defer inFlight.Store(nil)
+		}
 		if e.mode64 {
 			targets = e.do64(&ev.Call, ev)
 		} else {
@@ -477,6 +524,7 @@ func (e *Exec) run(c Call) *Event {
 		}
 		if h := hashBytes(b.bytes); h != b.hash {
 			ev.Bufch = append(ev.Bufch, b.id)
+			ev.Bufrz = ev.Bufrz || b.frz
 			b.hash = h
 		}
 	}
@@ -730,6 +778,16 @@ func (e *Exec) do(c *Call, ev *Event) (targets []int) {
 			want = (xs.max() + 1 + 63) / 64
 		}
 		ev.Aux = x.DenseSize() == want && uint64(len(words)) == want
+		if e.rng.Intn(2) == 0 {
+			// the caller's slice is a window into a larger buffer: what lies beyond len(words) is not input
+			big := make([]uint64, len(words), len(words)+1024+e.rng.Intn(64))
+			copy(big, words)
+			tail := big[len(words):cap(big)]
+			for i := range tail {
+				tail[i] = ^uint64(0)
+			}
+			words = big
+		}
 		ev.Arr = e.projArr(decodeDense(words), ev)
 		doCopy := c.V&2 == 0
 		var r *roaring.Bitmap
@@ -896,13 +954,14 @@ func (e *Exec) do(c *Call, ev *Event) (targets []int) {
 
 var _ = io.EOF
 
-func (e *Exec) bufHashesChanged() bool {
+func (e *Exec) bufHashesChanged() (changed, frozen bool) {
 	for _, b := range e.bufs {
 		if !b.dead && hashBytes(b.bytes) != b.hash {
-			return true
+			changed = true
+			frozen = frozen || b.frz
 		}
 	}
-	return false
+	return
 }
 
 // sharingProbe: (1) two slots holding the very same *Bitmap: recorded and severed; (2) chunk payloads
@@ -954,6 +1013,7 @@ func (e *Exec) sharingProbe(ev *Event, targets []int) {
 	// Remove(v);Add(v); because a leaked write cannot be undone reliably (the writer may have re-typed
 	// its chunk in between), both participants are rebuilt from snapshots taken before the probe when
 	// a leak was witnessed, and scribbled caller buffers are restored from their saved copies.
+	probeFrz := false
 	probe := func(a, b int, v uint32) bool {
 		A := e.slots[a]
 		if !A.Contains(v) {
@@ -967,7 +1027,7 @@ func (e *Exec) sharingProbe(ev *Event, targets []int) {
 		A.Remove(v)
 		w := false
 		if b == 0 {
-			w = e.bufHashesChanged()
+			w, probeFrz = e.bufHashesChanged()
 		} else {
 			w = !view32(e.slots[b], nil).Set.contains(uint64(v))
 		}
@@ -987,6 +1047,7 @@ func (e *Exec) sharingProbe(ev *Event, targets []int) {
 		return w
 	}
 	done := map[[2]int]bool{}
+	tries := map[[2]int]int{} // unwitnessed probes per pair of slots are bounded: a probe walks both bitmaps
 	for _, ptr := range order {
 		refs := byPtr[ptr]
 		if len(refs) >= 2 {
@@ -1005,8 +1066,11 @@ func (e *Exec) sharingProbe(ev *Event, targets []int) {
 						if x == y || refs[x].slot == refs[y].slot || done[[2]int{refs[x].slot, refs[y].slot}] || done[[2]int{refs[y].slot, refs[x].slot}] {
 							continue
 						}
+						if tries[[2]int{refs[x].slot, refs[y].slot}]++; tries[[2]int{refs[x].slot, refs[y].slot}] > 6 {
+							continue
+						}
 						w := probe(refs[x].slot, refs[y].slot, uint32(refs[x].rec.First))
-						ev.Probe = append(ev.Probe, ProbeRec{refs[x].slot, refs[y].slot, w})
+						ev.Probe = append(ev.Probe, ProbeRec{refs[x].slot, refs[y].slot, w, false})
 						if w {
 							done[[2]int{refs[x].slot, refs[y].slot}] = true
 						}
@@ -1016,8 +1080,11 @@ func (e *Exec) sharingProbe(ev *Event, targets []int) {
 		}
 		for _, r := range refs {
 			if r.rec.M != 0 && !r.rec.S && !done[[2]int{r.slot, 0}] {
+				if tries[[2]int{r.slot, 0}]++; tries[[2]int{r.slot, 0}] > 6 {
+					continue
+				}
 				w := probe(r.slot, 0, uint32(r.rec.First))
-				ev.Probe = append(ev.Probe, ProbeRec{r.slot, 0, w})
+				ev.Probe = append(ev.Probe, ProbeRec{r.slot, 0, w, w && probeFrz})
 				if w {
 					done[[2]int{r.slot, 0}] = true
 				}
